@@ -101,6 +101,10 @@ def history_trace(tid, dealer: int, vul: int, hist: Sequence[int], *,
     """Drives a fresh BiddingPhase through `hist`."""
     bp, e = new_events(tid, dealer, vul)
     evs = [e]
+    if e['hist'] or any(e['perseat']):
+        # a fresh object that already has calls recorded: the trace spec
+        # rejects this event; driving on would only inflate the trace
+        return evs
 
     def illegal_offers():
         av = list(bp.available_bid)
